@@ -47,7 +47,7 @@ func c11paths() []c11path {
 			}
 		}
 	}
-	causes1 := []string{"none", "disconnect", "drop", "silence", "second-connect", "displaced-same-node", "subscribe-and-drop"}
+	causes1 := []string{"none", "disconnect", "drop", "silence", "second-connect", "displaced-same-node", "subscribe-and-drop", "connect-answer-lost"}
 	causes2 := append(append([]string{}, causes1...), "displaced-other-node", "leave", "displaced-other-node-unaware")
 	// keep-alive values at the edges of the 16-bit field: only short absolute idles (1 s, 3.5 s), pings and subscriptions
 	for _, k := range []int32{32767, 32768, 32769, 65535} {
@@ -259,7 +259,7 @@ func TestC11Lifecycle(t *testing.T) {
 					}
 					return ""
 				}
-				var c2 *Client
+				var c2, lost *Client
 				if p.Gossip == "queued-while-node-3-fails" {
 					w.PumpGossip()
 					w.GossipLazy = true
@@ -269,6 +269,18 @@ func TestC11Lifecycle(t *testing.T) {
 					ended = false
 				case "disconnect":
 					c.Disconnect()
+				case "connect-answer-lost":
+					// another client's CONNECT is accepted but the connection breaks before the answer can be written: that
+					// session ends at once (connection loss) and must leave nothing behind; the scripted session lives on
+					ended = false
+					lost = w.NewClient("lost", 1, AckAll)
+					lost.FailBrokerWrites(true)
+					lost.SendRaw(EncodeConnect(&packet.Connect{Header: &packet.Header{}, ClientId: []byte("Y"), KeepaliveTimer: 600, Clean: true, WillTopic: []byte("will/y"), WillPayload: []byte("y-gone"), WillQos: 1}))
+					w.Step()
+					w.mu.Lock()
+					lost.SessionID = w.lastSessionID // handed out by the authentication seam; the client never learned it
+					w.mu.Unlock()
+					lost.Drop()
 				case "drop":
 					c.Drop()
 					expectClose = false
@@ -434,6 +446,23 @@ func TestC11Lifecycle(t *testing.T) {
 					}
 					MarkNontrivial(fmt.Sprintf("%v", p))
 					rep.Nontrivial++
+				}
+				if lost != nil {
+					for _, n := range w.Nodes {
+						if n.Dead {
+							continue
+						}
+						for _, s := range n.DState.SessionMetadatas().All() {
+							if s.ClientID == "Y" {
+								viol("c11-session-record-left:connect-answer-lost", "the connection was lost before the CONNACK could be written; 6 s later node %d still lists the session record %s of that client", n.ID, s.SessionID)
+								return
+							}
+						}
+						if n.ID == 1 && lost.SessionID != sid && n.Local.Get(lost.SessionID) != nil {
+							viol("c11-local-registration-left:connect-answer-lost", "node 1's registry still holds session %s, whose connection was lost before the CONNACK could be written", lost.SessionID)
+							return
+						}
+					}
 				}
 				// referential integrity at quiescence, on every live node
 				for _, n := range w.Nodes {
